@@ -5,7 +5,7 @@ import (
 	"go/token"
 	"go/types"
 
-	"golang.org/x/tools/go/ssa"
+	"ikeverif/checker/xt/ssa"
 )
 
 // Closed-world field tables (DESIGN 3.2): for a struct field of a module type, the set of values
